@@ -13,6 +13,7 @@ import Scalibr.Base.Wire
 import Scalibr.Model.Gitignore
 import Scalibr.Model.Scan
 import Scalibr.Spec.Walk
+import Scalibr.Proofs.WalkTop
 open Scalibr Scalibr.Walk Scalibr.Wire
 
 def parsePath (s : String) : Option Path :=
@@ -173,7 +174,10 @@ def handle (line : String) : String :=
         s!"err={showErr r.err} vis={r.visited} calls={joinWith ";" ((r.calls.filter (·.opened)).map showCall)} " ++
         s!"pkgs={joinWith ";" (o.pkgs.map fun p => s!"{p.id}@{p.ext}@{showPath p.loc}")} " ++
         s!"st={joinWith "," (o.statuses.map fun (e, st) => s!"{e}={showStatus st}")} " ++
-        s!"hyp={boolStr hyp} spec={joinWith ";" ((spec.filter (·.opened)).map showCall)}"
+        s!"hyp={boolStr hyp} spec={joinWith ";" ((spec.filter (·.opened)).map showCall)} " ++
+        -- the specification's inventory and statuses (theorems C01_inv_spec, C09_surfaced), sorted as sortResults does
+        s!"specpkgs={joinWith ";" ((isort (pkgLt naming) (pkgsOfCalls c spec)).map fun p => s!"{p.id}@{p.ext}@{showPath p.loc}")} " ++
+        s!"specst={joinWith "," ((isort (statusLt naming) (roots.flatMap fun (r, f) => (List.range c.nExt).map fun e => (e, statusSpec c f r e))).map fun (e, st) => s!"{e}={showStatus st}")}"
       | none => "bad-op"
     | _, _, _, _, _, _, _ => "bad-op"
   | _ => "bad-op"
